@@ -227,7 +227,9 @@ static RunResult run_pieces(const std::string& data, const std::string& fmt, con
     const osmium::io::File file{data.data(), data.size(), fmt + ".gz"};   // "gz" is bound to the mock
     RunResult r = read_all(file);
     if (r.where.empty() && g_bytes_out != data.size()) {
-        throw std::runtime_error{"harness: the mock decompressor was not read to the end on a successful run"};
+        // the run succeeded although part of the input was never asked for: what was delivered cannot depend on those
+        // bytes, i.e. the result depends on how the stream was cut (with one piece the parser sees everything)
+        throw vh::Mismatch(-1, vh::json(static_cast<uint64_t>(data.size())), vh::json(static_cast<uint64_t>(g_bytes_out.load())), "a run that reported success read only part of the input (bytes handed out by the decompressor vs size of the stream)");
     }
     return r;
 }
